@@ -1,5 +1,6 @@
 import Heathcliff.Proofs.C08A
 import Heathcliff.Proofs.C08B
+import Heathcliff.Proofs.C08C
 
 /- Property theorems only (statements verbatim; proofs are the helper lemmas of Heathcliff/Proofs). -/
 namespace HC.C08
@@ -85,6 +86,86 @@ theorem naf_spec {v : Int} (hv : -(2^31 : Int) < v ∧ v < 2^31) :
       (∀ d ∈ ds, ∃ i : Nat, d = 2^i ∨ d = -(2^i : Int)) ∧
       List.Pairwise (fun a b => 4 * a.natAbs ≤ b.natAbs) ds := HC.naf_spec hv
 
+theorem toNat_lt {l : List Nat} (h : Limbs l) : toNat l < 2^(64 * l.length) := HC.toNat_lt h
+
+theorem toNat_fromNat (n v : Nat) : toNat (fromNat n v) = v % 2^(64*n) ∧ (fromNat n v).length = n ∧ Limbs (fromNat n v) := HC.toNat_fromNat n v
+
+/-- single-word carry primitives -/
+theorem addU64Carry_spec {a b c : Nat} (ha : a < 2^64) (hb : b < 2^64) (hc : c ≤ 1) :
+    (addU64Carry a b c).1 + 2^64 * (addU64Carry a b c).2 = a + b + c ∧ (addU64Carry a b c).1 < 2^64 ∧ (addU64Carry a b c).2 ≤ 1 := HC.addU64Carry_spec ha hb hc
+
+theorem subU64Borrow_spec {a b c : Nat} (ha : a < 2^64) (hb : b < 2^64) (hc : c ≤ 1) :
+    (subU64Borrow a b c).1 + b + c = a + 2^64 * (subU64Borrow a b c).2 ∧ (subU64Borrow a b c).1 < 2^64 ∧ (subU64Borrow a b c).2 ≤ 1 := HC.subU64Borrow_spec ha hb hc
+
+theorem addUint_spec {a b : List Nat} {n : Nat} (hn : 1 ≤ n) (ha : Limbs a) (hb : Limbs b)
+    (hla : n ≤ a.length) (hlb : n ≤ b.length) :
+    ∃ r c, addUint a b n = .ok (r, c) ∧ r.length = n ∧ Limbs r ∧ c ≤ 1 ∧
+      toNat r + 2^(64*n) * c = toNat (a.take n) + toNat (b.take n) := HC.addUint_spec hn ha hb hla hlb
+
+theorem subUint_spec {a b : List Nat} {n : Nat} (hn : 1 ≤ n) (ha : Limbs a) (hb : Limbs b)
+    (hla : n ≤ a.length) (hlb : n ≤ b.length) :
+    ∃ r c, subUint a b n = .ok (r, c) ∧ r.length = n ∧ Limbs r ∧ c ≤ 1 ∧
+      toNat r + toNat (b.take n) = toNat (a.take n) + 2^(64*n) * c := HC.subUint_spec hn ha hb hla hlb
+
+theorem addUintU64_spec {a : List Nat} {w n : Nat} (hn : 1 ≤ n) (ha : Limbs a) (hw : w < 2^64) (hla : n ≤ a.length) :
+    ∃ r c, addUintU64 a w n = .ok (r, c) ∧ r.length = n ∧ Limbs r ∧ c ≤ 1 ∧
+      toNat r + 2^(64*n) * c = toNat (a.take n) + w := HC.addUintU64_spec hn ha hw hla
+
+theorem subUintU64_spec {a : List Nat} {w n : Nat} (hn : 1 ≤ n) (ha : Limbs a) (hw : w < 2^64) (hla : n ≤ a.length) :
+    ∃ r c, subUintU64 a w n = .ok (r, c) ∧ r.length = n ∧ Limbs r ∧ c ≤ 1 ∧
+      toNat r + w = toNat (a.take n) + 2^(64*n) * c := HC.subUintU64_spec hn ha hw hla
+
+theorem negateUint_spec {a : List Nat} {n : Nat} (hn : 1 ≤ n) (ha : Limbs a) (hla : n ≤ a.length) :
+    ∃ r, negateUint a n = .ok r ∧ r.length = n ∧ Limbs r ∧
+      toNat r = (2^(64*n) - toNat (a.take n)) % 2^(64*n) := HC.negateUint_spec hn ha hla
+
+/-- product by one word, for every result length n ≥ 1 (truncating) -/
+theorem multiplyUintU64_spec {a : List Nat} {w n : Nat} (hn : 1 ≤ n) (ha : Limbs a) (hw : w < 2^64) :
+    ∃ r, multiplyUintU64 a w n = .ok r ∧ r.length = n ∧ Limbs r ∧
+      toNat r = (toNat a * w) % 2^(64*n) := HC.multiplyUintU64_spec hn ha hw
+
+/-- full product, for every pair of operand lengths and every result length n ≥ 1 (incl. 1) -/
+theorem multiplyUint_spec {a b : List Nat} {n : Nat} (hn : 1 ≤ n) (ha : Limbs a) (hb : Limbs b) :
+    ∃ r, multiplyUint a b n = .ok r ∧ r.length = n ∧ Limbs r ∧
+      toNat r = (toNat a * toNat b) % 2^(64*n) := HC.multiplyUint_spec hn ha hb
+
+theorem leftShiftUint_spec {a : List Nat} {s cnt : Nat} (ha : Limbs a) (hl : cnt ≤ a.length) (hs : s < 64 * cnt) :
+    ∃ r, leftShiftUint a s cnt = .ok r ∧ r.length = cnt ∧ Limbs r ∧
+      toNat r = (toNat (a.take cnt) * 2^s) % 2^(64*cnt) := HC.leftShiftUint_spec ha hl hs
+
+theorem rightShiftUint_spec {a : List Nat} {s cnt : Nat} (ha : Limbs a) (hl : cnt ≤ a.length) (hs : s < 64 * cnt) :
+    ∃ r, rightShiftUint a s cnt = .ok r ∧ r.length = cnt ∧ Limbs r ∧
+      toNat r = toNat (a.take cnt) / 2^s := HC.rightShiftUint_spec ha hl hs
+
+theorem leftShiftU192_spec {a : List Nat} {s : Nat} (ha : Limbs a) (hl : a.length = 3) (hs : s < 192) :
+    ∃ r, leftShiftU192 a s = .ok r ∧ r.length = 3 ∧ Limbs r ∧ toNat r = (toNat a * 2^s) % 2^192 := HC.leftShiftU192_spec ha hl hs
+
+theorem rightShiftU192_spec {a : List Nat} {s : Nat} (ha : Limbs a) (hl : a.length = 3) (hs : s < 192) :
+    ∃ r, rightShiftU192 a s = .ok r ∧ r.length = 3 ∧ Limbs r ∧ toNat r = toNat a / 2^s := HC.rightShiftU192_spec ha hl hs
+
+theorem halfRoundUp_spec {a : List Nat} {n : Nat} (hn : 1 ≤ n) (ha : Limbs a) (hl : n ≤ a.length) :
+    ∃ r, halfRoundUp a n = .ok r ∧ r.length = n ∧ Limbs r ∧
+      toNat r = ((toNat (a.take n) + 1) / 2) % 2^(64*n) := HC.halfRoundUp_spec hn ha hl
+
+/-- comparison of values of possibly different lengths -/
+theorem compareUint_spec {a b : List Nat} (ha : Limbs a) (hb : Limbs b) :
+    compareUint a b = (if toNat a < toNat b then -1 else if toNat a > toNat b then 1 else 0) := HC.compareUint_spec ha hb
+
+theorem multiplyManyU64_spec {ops : List Nat} {n : Nat} (hne : ops ≠ []) (ho : Limbs ops) (hn : ops.length ≤ n) :
+    ∃ r, multiplyManyU64 ops n = .ok r ∧ r.length = n ∧ Limbs r ∧ toNat r = ops.foldl (· * ·) 1 := HC.multiplyManyU64_spec hne ho hn
+
+theorem addUintMod_spec {a b md : List Nat} (hn : 1 ≤ md.length) (ha : Limbs a) (hb : Limbs b) (hm : Limbs md)
+    (hla : a.length = md.length) (hlb : b.length = md.length) (hax : toNat a < toNat md) (hbx : toNat b < toNat md) :
+    ∃ r, addUintMod a b md = .ok r ∧ r.length = md.length ∧ Limbs r ∧ toNat r = (toNat a + toNat b) % toNat md := HC.addUintMod_spec hn ha hb hm hla hlb hax hbx
+
+theorem subUintMod_spec {a b md : List Nat} (hn : 1 ≤ md.length) (ha : Limbs a) (hb : Limbs b) (hm : Limbs md)
+    (hla : a.length = md.length) (hlb : b.length = md.length) (hax : toNat a < toNat md) (hbx : toNat b < toNat md) :
+    ∃ r, subUintMod a b md = .ok r ∧ r.length = md.length ∧ Limbs r ∧ toNat r = (toNat a + toNat md - toNat b) % toNat md := HC.subUintMod_spec hn ha hb hm hla hlb hax hbx
+
+theorem negateUintMod_spec {a md : List Nat} (hn : 1 ≤ md.length) (ha : Limbs a) (hm : Limbs md)
+    (hla : a.length = md.length) (hax : toNat a < toNat md) :
+    ∃ r, negateUintMod a md = .ok r ∧ r.length = md.length ∧ Limbs r ∧ toNat r = (toNat md - toNat a) % toNat md := HC.negateUintMod_spec hn ha hm hla hax
+
 theorem modulus_new_wf {v : Nat} {m : Modulus} (h : Modulus.mk? v = .ok m) (hv : v ≠ 0) :
     m.WF ∧ m.value = v := Modulus.mk?_wf h hv
 
@@ -96,6 +177,9 @@ theorem tryInvert_overflow_witness : tryInvert (2^64-1) 2 = .error .overflow := 
 theorem tryInvert_spec_partial {v q : Nat} (hq2 : 2 ≤ q) (hq : q < 2^61) (hv : v < 2^64) (hv' : v < 2^63) :
     (v ≠ 0 ∧ Nat.gcd v q = 1 → ∃ r, tryInvert v q = .ok (some r) ∧ r < q ∧ (r * v) % q = 1) ∧
     (v = 0 ∨ Nat.gcd v q ≠ 1 → tryInvert v q = .ok none) := HC.tryInvert_spec_partial hq2 hq hv hv'
+
+/-- DIVISION WITH REMAINDER (shift-subtract loop of `divide_uint_inplace`), all lengths: n = q·d + r, r < d -/
+theorem divideUint_spec : HC.DivideUintStatement := HC.divideUint_spec
 
 /-- non-vacuity: a 61-bit modulus is well formed and the premises of the theorems are satisfiable -/
 example : ∃ m, Modulus.mk? 2305843009213693951 = .ok m ∧ m.WF :=
